@@ -266,3 +266,34 @@ Proof.
   - destruct H as [-> _]. exists []. split; [apply adv_refl|constructor].
 Qed.
 End Avoids.
+
+(* ---------- 4. where a rule can start ---------- *)
+Section StartChars.
+Variable U : uni.
+Variable T : list Z.
+
+Definition first_within (r : rx) : bool :=
+  forallb (fun cs => negb (cs_neg cs) && forallb (item_sub T) (cs_items cs)) (first r).
+
+Lemma first_within_sound r ch : first_within r = true -> in_first U r ch = true -> memc ch T = true.
+Proof.
+  unfold first_within, in_first. intros Hw Hin. apply existsb_exists in Hin. destruct Hin as (cs & Hcs & Hm).
+  rewrite forallb_forall in Hw. specialize (Hw cs Hcs). apply andb_true_iff in Hw. destruct Hw as [Hn Hit].
+  apply negb_true_iff in Hn. unfold cs_mem, in_class in Hm. rewrite Hn, xorb_false_l in Hm.
+  apply existsb_exists in Hm. destruct Hm as (it & Hi & Hit2). rewrite forallb_forall in Hit.
+  exact (item_sub_sound U T it ch (Hit it Hi) Hit2).
+Qed.
+
+(* a well-formed, non-nullable rule whose first characters lie in T cannot match where another character stands *)
+Theorem cannot_start r z : wf r = true -> nullable r = false -> first_within r = true ->
+  (forall ch, hd_error (z_rest z) = Some ch -> memc ch T = false) ->
+  match_at U r z = None.
+Proof.
+  intros W Hn Hf Hhd. destruct (match_at U r z) as [res|] eqn:E; [|reflexivity]. exfalso.
+  destruct (match_sound U r z res W E) as (z' & c' & HM & _).
+  destruct (Nat.eq_dec (z_idx z') (z_idx z)) as [He|Hne].
+  - rewrite (nullable_sound U r _ _ _ _ HM He) in Hn. discriminate.
+  - pose proof (M_idx_le U r _ _ _ _ HM). destruct (first_sound U r _ _ _ _ HM ltac:(lia)) as (ch & Hh & Hin).
+    pose proof (first_within_sound r ch Hf Hin) as Ht. rewrite (Hhd ch Hh) in Ht. discriminate.
+Qed.
+End StartChars.
